@@ -239,6 +239,10 @@ def cls_bracket_env_name(f):
                     set(re.findall(r'\\begin\{([^{}]*)\}', out))
                 if out_v == out and op.only_closers_inserted(v, out, names | _env_names_of(v)) is None:
                     return True
+        # last resort: align directly, letting `[`..`]` after \begin / \end
+        # stand for the `{`..`}` of the output
+        if re.search(r'\\(?:begin|end)[ \t]*\n?[ \t]*\[', src):
+            return op.only_closers_inserted(src, out, _env_names_of(src), allow_bracket_names=True) is None
         return False
     if f.kind == 'tolerant-output-not-input-plus-closers':
         names = set(re.findall(r'\\begin\{([^{}]*)\}', out))
